@@ -1,0 +1,80 @@
+//go:build verif
+
+package formatter
+
+// Contracts for govc (contract-based deductive verification). Comment-only: this file
+// contributes no declarations and is compiled only with -tags verif.
+
+// ---- source rewriting (C18), the part within reach of contracts: for every source text the
+// ---- scanners of `glyph fmt`, `glyph expand` and `glyph compact` terminate without an index or
+// ---- slice panic (strict, loop variants), and the two substitution tables are inverse bijections
+// ---- (structural check). Token-sequence and syntax-tree preservation are NOT decided here.
+
+//@ func scanBrackets
+//@   strict
+//@   modifies nothing
+//@   ensures opens >= 0 && closes >= 0 && 0 <= leadingCloses && leadingCloses <= closes
+//@   loop 1 invariant 0 <= i && i <= n && n == len(line) && 0 <= opens && opens <= i && 0 <= closes && closes <= i && 0 <= leadingCloses && leadingCloses <= closes
+//@   loop 1 decreases n - i
+//@   loop 2 invariant 0 <= i && i <= n && n == len(line) && pre(i) <= i
+//@   loop 2 decreases n - i
+
+//@ func isInsideBlock
+//@   strict
+//@   modifies nothing
+//@   requires 0 <= pos && pos <= len(source)
+//@   loop 1 invariant 0 <= i && i <= pos + 2
+//@   loop 1 decreases pos - i
+//@   loop 2 invariant 0 <= i && i <= pos + 1 && pre(i) <= i
+//@   loop 2 decreases pos - i
+
+//@ func shouldTransformSymbol
+//@   strict
+//@   modifies nothing
+//@   requires 0 <= pos && pos <= len(source)
+//@   loop 1 invariant 0 <= lineStart && lineStart <= pos
+//@   loop 1 decreases lineStart
+
+//@ func shouldTransformKeyword
+//@   strict
+//@   modifies nothing
+//@   requires 0 <= pos && pos <= len(source)
+//@   loop 1 invariant 0 <= lineStart && lineStart <= pos
+//@   loop 1 decreases lineStart
+
+//@ func transform
+//@   strict
+//@   loop 1 invariant 0 <= i && i <= n && n == len(source)
+//@   loop 1 decreases n - i
+//@   loop 2 invariant 0 <= start && start <= i && i <= n && n == len(source)
+//@   loop 2 decreases n - i
+//@   loop 3 invariant 0 <= i && i <= n && n == len(source) && pre(i) <= i
+//@   loop 3 decreases n - i
+// the identifier scan makes progress: it starts on a letter, which its own condition accepts
+//@   loop 4 invariant 0 <= start && start <= i && i <= n && n == len(source) && (i > start || (i < n && libcall(unicode.IsLetter, rune(source[i]))))
+//@   loop 4 decreases n - i
+//@   loop 5 invariant 0 <= i && i <= n && n == len(source) && pre(i) <= i
+//@   loop 5 decreases n - i
+
+//@ func ExpandSource
+//@   strict
+//@ func CompactSource
+//@   strict
+
+// CanonicalizeSource is line-local: every line it emits is empty or an input line (of the text
+// after line-ending normalisation) with nothing changed but the white space at its two ends -
+// the re-indentation. (Which lines are dropped, the order of lines and the normalisation of
+// line endings themselves are not part of this lemma.)
+// indented(o, t): o is t behind some number of two-space indentation units. Only the introduction rule
+// is given (the predicate occurs positively in what is proved, so the lemma holds for the intended
+// reading "exists k: o == Repeat("  ", k) + t").
+//@ spec func indented(o string, t string) bool
+//@ axiom indentedIntro(k int, t string): k >= 0 ==> indented(libcall(strings.Repeat, "  ", k) + t, t)
+//@ spec func relaid(o string, lines []string, n int) bool = o == "" || exists(i, 0, n, indented(o, libcall(strings.TrimSpace, lines[i])))
+//@ func CanonicalizeSource
+//@   strict
+//@   mathint
+//@   checkif forall(j, 0, len(out), relaid(out[j], lines, len(lines)))
+//@   loop 1 invariant 0 <= rangeidx && depth >= 0 && blankRun >= 0 && (base(out) != base(lines) || cap(out) == 0) && forall(j, 0, len(out), relaid(out[j], lines, rangeidx))
+//@   loop 2 invariant len(out) >= 0 && forall(j, 0, len(out), relaid(out[j], lines, len(lines)))
+//@   loop 2 decreases len(out)
